@@ -1,5 +1,6 @@
 import Altrios.Hybrid
 import Proofs.C08
+import Proofs.C01
 /-
   C08 for the third locomotive type (`HybridLoco`, model `Altrios/Hybrid.lean`):
   every component of a hybrid obeys the second law in every accepted step, FOR EVERY SPLIT the
@@ -13,6 +14,8 @@ import Proofs.C08
     * `C08_hybrid_res_share_le_max` : the battery's share never exceeds its published propulsion limit and
                                       never exceeds the drivetrain's demand when `split ≤ 1`
     * `C08_hybrid_gss_bounds`       : the interval handed to the search lies in [0,1]
+    * `C08_hybrid_ledger`           : fuel + battery chemical power = wheel + dynamic braking + generator aux
+                                      + the four reported losses (the C01 ledger, for the type C01 leaves out)
     * `C08_hybrid_loco_step`        : the same through `Locomotive::solve_energy_consumption`'s hybrid arm,
                                       with `pwr_out = prop − dyn brake = request`
     * `C08_hybrid_ignores_engine_off` : the hybrid arm never reads `engine_on` (the model has no such
@@ -128,6 +131,34 @@ theorem C08_hybrid_res_share_le_max : C08_hybrid_res_share_le_max_statement := b
     exact le_trans (min_le_right _ _) this
   · exact le_min hr (mul_nonneg hp (by linarith))
 
+/-- **Unit ledger of a hybrid** (the C01 ledger for the locomotive type C01's statement leaves out):
+    in every accepted step, for every split, fuel power plus battery chemical power equals wheel power
+    plus dynamic-braking power plus the generator's auxiliary load plus the losses reported by engine,
+    generator, battery and drivetrain.  `hreg` is the forced hypothesis of `C01_edrv_balance`
+    (established by `set_cur_pwr_max_out` inside a simulation step). -/
+def C08_hybrid_ledger_statement : Prop :=
+  ∀ (α : Type) [Field α] [LinearOrder α] [IsStrictOrderedRing α]
+    (k : Consts α) (h h' : Hybrid α) (req dt split ga : α) (al : Bool),
+    HybOK h → 0 ≤ ga → 0 ≤ h.edrv.state.pwrMechRegenMax →
+    hybSolve k h req dt al split ga = .ok h' →
+      h'.fc.state.pwrFuel + h'.res.state.pwrOutChemical =
+        req + h'.edrv.state.pwrMechDynBrake + ga +
+        (h'.fc.state.pwrLoss + h'.gen.state.pwrLoss + h'.res.state.pwrLoss + h'.edrv.state.pwrLoss)
+
+theorem C08_hybrid_ledger : C08_hybrid_ledger_statement := by
+  intro α _ _ _ k h h' req dt split ga al hok hga hreg hh
+  obtain ⟨-, ⟨-, -, r3, e3⟩, -, -, -⟩ := C08_hybrid_step α k h h' req dt split ga al hok hga hh
+  obtain ⟨hsum, hshaft, haux, hgaux, -⟩ := C08_hybrid_handoff α k h h' req dt split ga al hh
+  obtain ⟨e', g', fc', r', pg, pr, h1, h2, h3, h4, -, -, rfl⟩ := hybSolve_ok k h h' req dt split ga al hh
+  obtain ⟨f1, -⟩ := Altrios.Proofs.C01.C01_fc_balance k h.fc fc' _ dt true al h3
+  obtain ⟨g1, -, -⟩ := Altrios.Proofs.C01.C01_gen_balance h.gen g' pg ga dt h2
+  obtain ⟨q1, -, -, q4⟩ := Altrios.Proofs.C01.C01_res_balance k h.res r' pr 0 dt h4
+  obtain ⟨m1, -⟩ := Altrios.Proofs.C01.C01_edrv_mech h.edrv e' req dt h1
+  have b1 := Altrios.Proofs.C01.C01_edrv_balance h.edrv e' req dt h1 hreg e3.1.1 e3.1.2
+  have q5 := q4 r3.1.1 r3.1.2
+  simp only at hsum hshaft haux hgaux r3 e3 ⊢
+  linarith
+
 /-- **Search interval**: both ends of `gss_bounds` lie in [0,1]; when battery and generator limits
     together cover the demand (`resMax + genMax ≥ pin > 0`, `resMax, genMax ≥ 0`) the interval is not
     inverted, so the mean used for a narrow interval and any point of it is a split in [0,1]. -/
@@ -205,6 +236,9 @@ theorem hybQ_ok : HybOK hybQ :=
 example : (hlocoSimStep kQ hlocoQ 300 1 none (1 / 2) 50).isOk = true := by decide +kernel
 example : (hlocoSimStep kQ hlocoQ 300 1 none (1 / 4) 50).isOk = true := by decide +kernel
 example : (hlocoSimStep kQ hlocoQ (-200) 1 none (1 / 2) 50).isOk = true := by decide +kernel
+
+/-- non-vacuity of `C08_hybrid_ledger`'s forced hypothesis -/
+example : 0 ≤ hybQ.edrv.state.pwrMechRegenMax := by decide +kernel
 
 example : ∃ h', hybSolve kQ hybQ 300 1 true (1 / 2) 50 = .ok h' ∧ HybStepOK h' := by
   obtain ⟨h', hh⟩ := exists_of_isOk (r := hybSolve kQ hybQ 300 1 true (1 / 2) 50) (by decide +kernel)
